@@ -71,6 +71,16 @@ CHECKS.update({
                           "empty entries; Mon_C19 (TLC) checks proxy selection by scheme, the CONNECT target, write ordering relative to the completed answer, same socket, Connected.proxy, "
                           "ConnectFail with zero handshake bytes otherwise.",
             "level_note": _NOTE + "Proxy-Authorization formatting and closing of sockets on proxy failure paths are not part of C19."},
+    "C16": {"technique": "explicit TLA+ model of persist() (spec/Persist.tla) checked by TLC (DelayInBounds, UpperLimitDoubles, OnlyExitEndsIt); every behaviour replayed into the real persist()/connect(); traces judged by the TLA+ monitor Mon_C16 evaluated by TLC",
+            "level_text": "TLC enumerates all sequences of attempt outcomes x wait settings x random draws x exit position of the persist model and checks the back-off invariants on it; each behaviour is "
+                          "replayed through the real persist() on top of the real connect() in the simulated world (scripted random(), scripted exit event, connect() wrapped on the instance to log its keyword "
+                          "arguments); Mon_C16 (TLC) checks one BackOff per ended attempt, pass-through of the inner events, exact rational delay = min + u*min(max-min, 2^k), bounds, reset after Ready, "
+                          "termination only by the exit event, and the keyword arguments handed to connect().",
+            "level_note": _NOTE + "<= 3 (quick) / 4 attempts; dyadic draws so that float arithmetic is exact."},
+    "C17": {"technique": "TLA+ case generator (spec/GenC17.tla: endings x continuations over the frame alphabet of the session model) evaluated by TLC; each pair run on one object and on a fresh object; pairs of traces judged by the TLA+ monitor Mon_C17 evaluated by TLC",
+            "level_text": "TLC enumerates all pairs (history with abnormal ending, next history); the harness runs history 1 then history 2 on the same WebSocket object (connect() twice, and through persist()) and "
+                          "history 2 on a fresh object; Mon_C17 (TLC) demands identical observables (events with payloads, decoded writes, call results) for the later connection and pairwise distinct handshake keys.",
+            "level_note": _NOTE + "19 endings x 8 continuations x 2 modes; time frozen; compression offered by every object so that compression contexts can leak if they are not reset."},
     "C14": _sess("Mon_C14", "pongs = answerable pings (payload, order, multiplicity), each written before its Ping event; none with auto_pong off; failing pong writes do not disturb the event stream (twin run)",
                  "<= 3 (quick) / 4 frames incl. 125-byte all-byte-values ping blobs, several items per read, application send/close reactions, failing writes."),
 })
